@@ -1,17 +1,40 @@
 """C17 — findings are a function of the sources (deterministic, order independent).
 
-Proof side: coq/props/C17.v over Model.Runner: the displayed multiset, exit
+Proof side: coq/props/C17.v.  Over Model.Runner: the displayed multiset, exit
 status and SARIF content are the same for every order in which the name maps
-are iterated and every set of lookups; definitions that are not analysed
-(included-only) or are added next to the others do not change the others'
-findings; the order in which parse_files' HashMap<FileID, ..> is iterated is
-irrelevant unless two sources share a name (known finding D22, refuted
-otherwise).  THE THEOREMS COVER ALL ORDERS; what this engine adds is an
-observation of the real binary: every project is run >= 8 times in fresh
-processes (fresh random hasher state each), with the definitions of each file
-permuted, the files given in another order, and unrelated definitions added
-or removed, and the normalised finding multisets are compared."""
+are iterated and every set of lookups; the order in which parse_files'
+HashMap<FileID, ..> is iterated is irrelevant unless two sources share a name
+(known finding D22).  Over Model.RunnerSrc (the source level on top of it, in
+which the pass results of a definition are a FUNCTION of the answers to the
+lookups its passes make): the findings of a definition are unchanged when
+definitions it does not look up are added, removed or reordered, and the
+statement without that hypothesis is refuted.  Over Model.Desugar: the two
+HashMap loops of remove_syntactic_sugar give the same result for every
+iteration order.
+
+What this engine adds (the tie to the code and the orders inside the stages):
+
+ * the real binary: every project is run >= 8 times in fresh processes (fresh
+   random hasher state each), with the definitions of each file permuted, the
+   files given in another order, unreferenced definitions added / removed,
+   and REFERENCED definitions changed (interface, body only, removed, made to
+   fail), and the normalised finding multisets are compared per definition;
+ * harness `c17 deps`: the REAL AnalysisRunner, driven as analyze_template does
+   but with a recording wrapper between the passes and the runner: which
+   definitions every analysis looked up, and what it was answered.  With that
+   the check is made per definition and per case: findings may change only if
+   a looked-up (or anonymously instantiated) definition changed, and findings
+   grouped by (own source text, answers to the lookups) must coincide — the
+   assumption built into Model.RunnerSrc.  For small projects ALL analysis
+   orders are driven through the real runner's caches;
+ * harness `c17 orders`: the complete pipeline of main.rs repeated in process
+   in fresh threads (= fresh hasher keys for every HashMap of every stage), so
+   that many more hash states are sampled per case than processes can be
+   spawned; the iteration orders actually seen are counted."""
 import copy
+import itertools
+import json
+import math
 import os
 import re
 import shutil
@@ -25,6 +48,7 @@ def gen(ctx):
 
 
 GEN_NAME = re.compile(r"([A-Za-z_][A-Za-z_0-9]*?)_\d+_\d+")
+STUB_NAMES = ("LessThan", "Num2Bits")
 
 
 def norm_msg(msg, pdir):
@@ -81,6 +105,96 @@ def findings_of_run(p, r):
     return True, out
 
 
+def findings_of_outcome(p, outcome):
+    """The same shape from one outcome of harness `c17 orders` (in-process pipeline)."""
+    if not outcome or outcome.get("panic") or "owners" not in outcome:
+        return False, {}
+    out = {}
+    for owner, reps in outcome["owners"].items():
+        m = re.match(r"analyzing (template|function) '(.*)'$", owner)
+        own = (m.group(1), m.group(2)) if m else ("parse",)
+        lst = []
+        for s in reps:
+            if s.startswith("<<"):
+                lst.append(("<second segment>",))
+                continue
+            lst.append(norm_report(p, json.loads(s)))
+        if lst:
+            out[own] = sorted(lst)
+    return True, out
+
+
+# ---------------------------------------------------------------------------
+# generator: structures of lib/e2e.py + shapes aimed at the hash-ordered loops
+# ---------------------------------------------------------------------------
+
+DROP_REASONS = ["arity", "unknown", "assert", "arith"]
+
+
+def drop_shape(rng, k, j):
+    """Three templates: Sq (fine), Sc (DROPPED by the desugarer: its anonymous
+    component is invalid) and Us, which instantiates Sc ANONYMOUSLY and has
+    findings of its own.  Whether Us survives desugaring must not depend on
+    whether the loop of remove_syntactic_sugar visits Sc before Us."""
+    sq, sc, us = "Sq%d_%d" % (k, j), "Sc%d_%d" % (k, j), "Us%d_%d" % (k, j)
+    reason = rng.choice(DROP_REASONS)
+    bad = {"arity": "out <== %s(1)(in, in);" % sq,
+           "unknown": "out <== Absent%d_%d(1)(in);" % (k, j),
+           "assert": "assert(%s(1)(in) == 1);\n    out <== in;" % sq,
+           "arith": "out <== %s(1)(in) + 1;" % sq}[reason]
+    defs = [("template", sq, "template %s(n) {\n    signal input in;\n    signal output out;\n    out <== in * in;\n}" % sq),
+            ("template", sc, "template %s(n) {\n    signal input in;\n    signal output out;\n    %s\n}" % (sc, bad)),
+            ("template", us, "template %s(n) {\n    signal input in;\n    signal output out;\n    signal output c;\n    var unused = 3;\n"
+                             "    out <== %s(1)(in);\n    c <-- 2 * in;\n}" % (us, sc))]
+    if rng.random() < 0.5:
+        # a second user of the dropped template, through a named component (must keep its findings too)
+        nm = "Un%d_%d" % (k, j)
+        defs.append(("template", nm, "template %s(n) {\n    signal input in;\n    signal output out;\n    component k = %s(1);\n"
+                                     "    k.in <== in;\n    out <-- in;\n}" % (nm, sc)))
+    return defs, reason
+
+
+def gen_structure(rng, k, rich):
+    st = e2e.gen_structure(rng, rich=rich)
+    shapes = []
+    if rng.random() < 0.3:
+        user = [f for f in st["files"] if f["user"]]
+        for j in range(rng.choice([1, 1, 2])):
+            defs, reason = drop_shape(rng, k, j)
+            f = rng.choice(user)
+            for d in defs:
+                f["defs"].insert(rng.randint(0, len(f["defs"])), d)
+            shapes.append(reason)
+    st["shapes"] = shapes
+    return st
+
+
+ANON_CALL = re.compile(r"\b([A-Za-z_][A-Za-z_0-9]*)\s*\([^()]*\)\s*\(")
+
+
+def anon_callees(text):
+    return sorted(set(ANON_CALL.findall(text)) - {"assert", "log"})
+
+
+def instantiated_names(st):
+    """names of templates that the text of ANOTHER definition instantiates"""
+    defs = [(d[1], d[2]) for f in st["files"] for d in f["defs"]]
+    out = []
+    for name, _ in defs:
+        if name in STUB_NAMES:
+            continue
+        pat = re.compile(r"(=\s*|<==\s*)%s\s*\(" % re.escape(name))
+        if any(n != name and pat.search(text) for n, text in defs):
+            out.append(name)
+    return out
+
+
+def edit_body(text, line):
+    """insert a line before the closing brace of a definition"""
+    i = text.rstrip().rfind("}")
+    return text[:i] + "    " + line + "\n" + text[i:]
+
+
 def referenced_names(st):
     """name -> set of definitions (names) whose text mentions it"""
     defs = [(d[1], d[2]) for f in st["files"] for d in f["defs"]]
@@ -90,10 +204,10 @@ def referenced_names(st):
     return refs
 
 
-def variants(ctx, st, k):
+def variants(ctx, st, k, extra_same=0):
     """(kind, structure, argv order) variants of a project structure."""
     rng = ctx.rng
-    out = [("same", st, None)] * 3
+    out = [("same", st, None)] * (3 + extra_same)
     for _ in range(2):
         s2 = copy.deepcopy(st)
         for f in s2["files"]:
@@ -110,7 +224,7 @@ def variants(ctx, st, k):
         out.append(("same", st, None))
     # unrelated definitions added (fresh names, nobody references them; they may reference existing ones)
     s3 = copy.deepcopy(st)
-    existing = [d[1] for f in st["files"] for d in f["defs"] if d[0] == "template" and d[1] not in ("LessThan", "Num2Bits")]
+    existing = [d[1] for f in st["files"] for d in f["defs"] if d[0] == "template" and d[1] not in STUB_NAMES]
     for j, f in enumerate(s3["files"]):
         if rng.random() < 0.8:
             name = "Extra%d_%d" % (k, j)
@@ -127,28 +241,159 @@ def variants(ctx, st, k):
         keep = []
         for d in f["defs"]:
             main_uses = f["main"] and re.search(r"\b%s\b" % re.escape(d[1]), f["main"])
-            if not refs.get(d[1]) and not main_uses and rng.random() < 0.5 and d[1] not in ("LessThan", "Num2Bits"):
+            if not refs.get(d[1]) and not main_uses and rng.random() < 0.5 and d[1] not in STUB_NAMES:
                 removed.add(d[1])
             else:
                 keep.append(d)
         f["defs"] = keep
     if removed:
         out.append(("definitions-removed", s4, None))
+    # a REFERENCED definition changed: only the definitions that look it up (or instantiate it anonymously) may change
+    cands = instantiated_names(st)
+    mains = " ".join(f["main"] or "" for f in st["files"])
+    kinds = ["referenced-interface", "referenced-body", "referenced-removed", "referenced-broken"]
+    rng.shuffle(kinds)
+    for kind in kinds[:2] if cands else []:
+        target = rng.choice(cands)
+        s5 = copy.deepcopy(st)
+        for f in s5["files"]:
+            nd = []
+            for d in f["defs"]:
+                if d[1] != target:
+                    nd.append(d)
+                elif kind == "referenced-interface":
+                    nd.append((d[0], d[1], edit_body(d[2], "signal output zz9; zz9 <== in;")))
+                elif kind == "referenced-body":
+                    nd.append((d[0], d[1], edit_body(d[2], "var zq9 = 0; if (1 == 1) { zq9 = 1; } else { zq9 = 2; }")))
+                elif kind == "referenced-broken":
+                    nd.append((d[0], d[1], edit_body(d[2], "var yy9; var zy9 = yy9 + 1;")))
+                elif re.search(r"\b%s\b" % re.escape(target), mains):
+                    nd.append(d)         # the main component's template is not removed
+            f["defs"] = nd
+        out.append((kind, s5, None))
     return out
+
+
+def deftexts(st):
+    return {(d[0], d[1]): (f["name"], d[2]) for f in st["files"] for d in f["defs"]}
+
+
+# ---------------------------------------------------------------------------
+# harness c17
+# ---------------------------------------------------------------------------
+
+def harness_lines(mode, projects, extra):
+    hb = common.build_harness("c17")
+    lines = []
+    for p, x in zip(projects, extra):
+        d = {"files": p.abs_argv(), "libs": p.abs_libs()}
+        d.update(x)
+        lines.append(json.dumps(d))
+    out = common.run_lines(hb, [mode], lines, shards=common.NPROC, timeout=1500) if lines else []
+    if len(out) != len(lines):
+        raise common.BuildError("harness c17 %s: %d answers for %d projects" % (mode, len(out), len(lines)), "")
+    return [json.loads(l) for l in out]
+
+
+def norm_report(p, r):
+    def lab(l):
+        return (os.path.basename(l.get("path") or ""), GEN_NAME.sub(r"\1_#_#", l.get("text") or "?"), norm_msg(l.get("msg"), p.dir))
+    return (r["id"], r["level"], norm_msg(r["message"], p.dir), tuple(sorted(lab(l) for l in r["primary"])),
+            tuple(sorted(lab(l) for l in r["secondary"])))
+
+
+def lookups_of(run, p):
+    """{(kind, name): {"lookups": ((kind, name, answer-json), ..), "passes": normalised pass reports, "lifted": bool}} of one
+    run of `c17 deps` on project p."""
+    out = {}
+    for d in (run or {}).get("defs", []):
+        out[(d["kind"], d["name"])] = {
+            "lifted": d["lifted"],
+            "lookups": tuple((l["kind"], l["name"], json.dumps(l["answer"])) for l in d["lookups"]),
+            "passes": sorted(norm_report(p, r) for r in d["pass_reports"]),
+        }
+    return out
+
+
+def miss_probability(n, q):
+    """probability that n independent hash states all show the same one of two outcomes of relative frequency q / 1-q"""
+    return q ** n + (1 - q) ** n
+
+
+# ---------------------------------------------------------------------------
+# the check
+# ---------------------------------------------------------------------------
+
+REF_KINDS = ("referenced-interface", "referenced-body", "referenced-removed", "referenced-broken")
+
+
+def compare(ref, got, kind, A, B, infl_a, infl_b):
+    """Compares the findings of a base project (ref) and a variant (got).
+    A, B: {(kind, name): (file, text)}; infl_x: {(kind, name): set of names that may influence it}.
+    -> (list of owners whose findings differ although nothing they reference changed,
+        number of common definitions that changed through a changed reference,
+        number of common definitions that were allowed to change)"""
+    changed = {o[1] for o in set(A) | set(B) if A.get(o) != B.get(o)}
+    bad, moved, allowed = [], 0, 0
+    common_defs = [o for o in A if o in B and A[o] == B[o]]
+    # whether a definition EXISTS for the runner (survives the desugarer) and what a lookup of it answers is a function of its
+    # own text and of the texts of the templates it instantiates anonymously (the desugarer reads their signals from the
+    # immutable input map) ...
+    status_touched = set()
+    for o in set(A) | set(B):
+        anon = set(anon_callees((A.get(o) or B.get(o))[1])) | set(anon_callees((B.get(o) or A.get(o))[1]))
+        if A.get(o) != B.get(o) or (anon & changed):
+            status_touched.add(o)
+    st_names = {o[1] for o in status_touched}
+    # ... and its findings are a function of that and of the answers to its lookups: the references of a definition are
+    # followed transitively, lookup edge first, then anonymous-instantiation edge
+    touched = set(status_touched)
+    for o in set(A) | set(B):
+        infl = infl_a.get(o, set()) | infl_b.get(o, set())
+        if infl & (changed | st_names):
+            touched.add(o)
+    for o in sorted(common_defs):
+        a, b = ref.get(o, []), got.get(o, [])
+        if o in touched:
+            allowed += 1
+            if a != b:
+                moved += 1
+        elif a != b:
+            bad.append(o)
+    # parse-stage findings (they include the desugarer's per-definition errors)
+    pa, pb = list(ref.get(("parse",), [])), list(got.get(("parse",), []))
+    if kind in ("same", "definitions-permuted", "files-permuted"):
+        if pa != pb:
+            bad.append(("parse",))
+    else:
+        texts = [t[1] for o in touched for t in (A.get(o), B.get(o)) if t]
+
+        def located_in_touched(x):
+            labs = x[3] if len(x) > 3 else ()
+            return any(l[1] != "?" and any(l[1] in t for t in texts) for l in labs)
+        ra = sorted(x for x in pa if not located_in_touched(x))
+        rb = sorted(x for x in pb if not located_in_touched(x))
+        if ra != rb:
+            bad.append(("parse",))
+    return bad, moved, allowed
 
 
 def run(ctx, proofs):
     quick = ctx.tier == "quick"
     cli = common.build_cli()
+    common.build_harness("c17")
     base = e2e.scratch_dir("C17")
     try:
         nproj = 150 if quick else 1000
-        structures = [e2e.gen_structure(ctx.rng, rich=(i % 3 != 0)) for i in range(nproj)]
-        projects, info = [], []          # info: (structure index, variant kind)
+        extra_same = 0 if quick else 10         # more fresh processes per case in thorough
+        reps = 8 if quick else 32               # in-process repetitions (fresh thread = fresh hasher keys) per distinct project
+        structures = [gen_structure(ctx.rng, i, rich=(i % 3 != 0)) for i in range(nproj)]
+        projects, info, texts = [], [], []          # info: (structure index, variant kind); texts: {(kind, name): (file, text)}
         for k, st in enumerate(structures):
-            for kind, s2, argv in variants(ctx, st, k):
+            for kind, s2, argv in variants(ctx, st, k, extra_same):
                 projects.append(e2e.render_structure(s2, tag="s%d-%s" % (k, kind), argv=argv))
                 projects[-1].meta["defs"] = sorted([d[0], d[1]] for f in s2["files"] for d in f["defs"])
+                texts.append(deftexts(s2))
                 info.append((k, kind))
         # regression corpus: fixed witnesses, run 8 times each in fresh processes
         corpus = e2e.load_corpus("C17")
@@ -158,6 +403,7 @@ def run(ctx, proofs):
                 p = e2e.project_from_description(rec)
                 p.meta = dict(rec.get("meta", {}), corpus=rec["_file"])
                 projects.append(p)
+                texts.append({})
                 info.append(("corpus:" + rec["_file"], "same"))
         for i, p in enumerate(projects):
             p.write(base, i)
@@ -166,9 +412,82 @@ def run(ctx, proofs):
         groups = {}
         for i, (k, kind) in enumerate(info):
             groups.setdefault(k, []).append(i)
-        failing, compared, nontrivial, orders = [], 0, 0, set()
+
+        # ---- the real runner in process: lookups (deps) and many hash states (orders)
+        distinct = []                    # one representative index per distinct project content, per group
+        rep_of = {}
+        for k, idxs in groups.items():
+            seen = {}
+            for i in idxs:
+                key = (json.dumps(projects[i].files, sort_keys=True), tuple(projects[i].argv))
+                if key not in seen:
+                    seen[key] = i
+                    distinct.append(i)
+                rep_of[i] = seen[key]
+        small_budget = 60 if quick else 400
+        dep_extra = []
+        perm_cases = {}
+        for i in distinct:
+            x = {}
+            ud = [tuple(d) for d in projects[i].meta.get("defs", [])] if info[i][1] == "same" and not isinstance(info[i][0], str) else []
+            user_files = set(projects[i].argv)
+            ud = [d for d in ud if texts[i].get(d, ("",))[0] in user_files]
+            if 2 <= len(ud) <= 4 and small_budget > 0:
+                small_budget -= 1
+                perms = [list(map(list, p)) for p in itertools.permutations(sorted(ud))]
+                x["orders"] = perms
+                perm_cases[i] = perms
+            dep_extra.append(x)
+        deps = dict(zip(distinct, harness_lines("deps", [projects[i] for i in distinct], dep_extra)))
+        orders = dict(zip(distinct, harness_lines("orders", [projects[i] for i in distinct], [{"reps": reps}] * len(distinct))))
+
+        failing, broken = [], []
+        compared, nontrivial, seen_orders = 0, 0, set()
         known_hit = None
         kf = [x for x in ctx.known if x["id"] == "C17-duplicate-definition-order"]
+
+        # ---- (1) all analysis orders through the real runner's caches (small projects)
+        perm_orders, perm_projects = 0, 0
+        for i, perms in perm_cases.items():
+            rs = deps[i].get("runs", [])
+            if len(rs) != len(perms) or any(r.get("panic") for r in rs):
+                failing.append({"project": projects[i].describe(), "kind": "analysis-orders",
+                                "what": "the real runner panicked or gave %d answers for %d analysis orders" % (len(rs), len(perms))})
+                continue
+            perm_projects += 1
+            perm_orders += len(perms)
+            first = lookups_of(rs[0], projects[i])
+            for perm, r in zip(perms[1:], rs[1:]):
+                got = lookups_of(r, projects[i])
+                if got != first:
+                    o = next(o for o in sorted(set(first) | set(got)) if first.get(o) != got.get(o))
+                    failing.append({"project": projects[i].describe(), "kind": "analysis-orders",
+                                    "what": "lookup answers / pass reports of %s depend on the order in which the real runner analyses "
+                                            "the definitions: order %s gives %s, order %s gives %s"
+                                            % (" ".join(o), perms[0], str(first.get(o))[:300], perm, str(got.get(o))[:300])})
+                    break
+
+        def influencers(i):
+            """{(kind, name): names that may influence its findings} of project i: the templates the real runner was asked
+            for while it was analysed + the templates it instantiates anonymously (desugaring reads their signals)."""
+            j = rep_of[i]
+            rs = deps[j].get("runs", [])
+            lk = lookups_of(rs[0], projects[j]) if rs and not rs[0].get("panic") else {}
+            out = {}
+            for o, (_, text) in texts[i].items():
+                s = set(anon_callees(text))
+                if o in lk:
+                    s |= {l[1] for l in lk[o]["lookups"]}
+                out[o] = s
+            return out, lk
+
+        # ---- (2) the binary in fresh processes + the in-process pipeline: variants against the base project
+        moved_total, allowed_total = 0, 0
+        inproc_runs, inproc_multi = 0, 0
+        order_hist = {}
+        memo = {}
+        memo_keys = 0
+        shapes_seen = 0
         for k, idxs in groups.items():
             ref_i = idxs[0]
             ok0, ref = findings_of_run(projects[ref_i], runs[ref_i])
@@ -178,76 +497,177 @@ def run(ctx, proofs):
                 continue
             if any(ref.values()):
                 nontrivial += 1
-            for i in idxs[1:]:
-                okv, got = findings_of_run(projects[i], runs[i])
+            A = texts[ref_i]
+            is_corpus = isinstance(k, str)
+            infl_a, lk_a = influencers(ref_i) if not is_corpus else ({}, {})
+            if not is_corpus and structures[k].get("shapes"):
+                shapes_seen += 1
+            # in-process outcomes of every distinct content of the group
+            inproc = {}
+            for j in sorted({rep_of[i] for i in idxs}):
+                o = orders[j]
+                outs = o.get("outcomes", [])
+                inproc_runs += o.get("reps", 0)
+                for ao in o.get("analysis_orders", []):
+                    seen_orders.add((j, ao))
+                if not is_corpus and info[j][1] == "same":
+                    ut = [n for n in o.get("template_orders", [""])[0].split() if n]
+                    if len(ut) == 2:
+                        for to in o.get("template_orders", []):
+                            key = "first<second" if to.split() == sorted(ut) else "second<first"
+                            order_hist[key] = order_hist.get(key, 0) + 1
+                if len(outs) != 1:
+                    inproc_multi += 1
+                    known = is_corpus and projects[j].meta.get("known") and kf
+                    if known:
+                        known_hit = kf[0]["what"]
+                    else:
+                        a = findings_of_outcome(projects[j], outs[0]["outcome"])[1] if outs else {}
+                        b = findings_of_outcome(projects[j], outs[1]["outcome"])[1] if len(outs) > 1 else {}
+                        o2 = next((x for x in sorted(set(a) | set(b)) if a.get(x) != b.get(x)), ("?",))
+                        failing.append({"project": projects[j].describe(), "kind": "in-process-hash-states",
+                                        "what": "%d repetitions of the pipeline in one process (fresh hasher keys each) gave %d different "
+                                                "finding multisets (%s); findings of %s: %s vs %s"
+                                                % (o.get("reps", 0), len(outs), [x["count"] for x in outs], " ".join(o2),
+                                                   [x[:3] for x in a.get(o2, [])][:3], [x[:3] for x in b.get(o2, [])][:3])})
+                    continue
+                okp, f = findings_of_outcome(projects[j], outs[0]["outcome"])
+                if not okp:
+                    failing.append({"project": projects[j].describe(), "kind": "in-process-hash-states",
+                                    "what": "the pipeline panicked in process"})
+                    continue
+                inproc[j] = f
+            for i in idxs:
+                okv, got = (ok0, ref) if i == ref_i else findings_of_run(projects[i], runs[i])
                 kind = info[i][1]
-                compared += 1
-                orders.add((k, tuple(e2e.analysis_order(runs[i]["events"]))))
+                if i != ref_i:
+                    compared += 1
+                seen_orders.add((rep_of[i], " ".join("%s '%s'" % o for o in e2e.analysis_order(runs[i]["events"]))))
                 if not okv:
                     failing.append({"project": projects[i].describe(), "what": "run failed or SARIF does not match stdout (exit %s)" % runs[i]["exit"], "kind": kind})
                     continue
-                if kind in ("same", "definitions-permuted", "files-permuted"):
-                    keys = set(ref) | set(got)
-                    diff = [o for o in sorted(keys) if ref.get(o, []) != got.get(o, [])]
-                else:
-                    # definitions added / removed: the findings of every definition present in both versions are
-                    # unchanged; parse-stage findings (which include the desugarer's per-definition errors) may only
-                    # gain / lose findings
-                    common_defs = {tuple(d) for d in projects[ref_i].meta["defs"]} & {tuple(d) for d in projects[i].meta["defs"]}
-                    keys = {o for o in (set(ref) | set(got)) if o in common_defs}
-                    diff = [o for o in sorted(keys) if ref.get(o, []) != got.get(o, [])]
-                    small, big = (ref, got) if kind == "definitions-added" else (got, ref)
-                    rest = list(big.get(("parse",), []))
-                    for x in small.get(("parse",), []):
-                        if x in rest:
-                            rest.remove(x)
-                        else:
-                            diff.append(("parse",))
-                            break
-                if diff:
-                    o = diff[0]
-                    a, b = ref.get(o, []), got.get(o, [])
-                    rec = {"project": projects[ref_i].describe(), "variant": projects[i].describe(), "kind": kind,
-                           "what": "findings of %s differ between two runs (%s): only in the first %s, only in the second %s"
-                                   % (" ".join(o), kind, [x for x in a if x not in b][:2], [x for x in b if x not in a][:2])}
-                    if isinstance(k, str) and projects[i].meta.get("known") and kf:
-                        known_hit = kf[0]["what"]
+                B = texts[i]
+                infl_b, lk_b = influencers(i) if not is_corpus else ({}, {})
+                fams = [("binary", ref, got)]
+                if rep_of[i] in inproc and rep_of[ref_i] in inproc and rep_of[i] != rep_of[ref_i]:
+                    fams.append(("in-process", inproc[rep_of[ref_i]], inproc[rep_of[i]]))
+                for fam, fa, fb in fams:
+                    if is_corpus:
+                        diff = [o for o in sorted(set(fa) | set(fb)) if fa.get(o, []) != fb.get(o, [])]
+                        moved = allowed = 0
                     else:
-                        failing.append(rec)
+                        diff, moved, allowed = compare(fa, fb, kind, A, B, infl_a, infl_b)
+                    if fam == "binary":
+                        moved_total += moved
+                        allowed_total += allowed
+                    if diff:
+                        o = diff[0]
+                        a, b = fa.get(o, []), fb.get(o, [])
+                        rec = {"project": projects[ref_i].describe(), "variant": projects[i].describe(), "kind": kind,
+                               "what": "findings of %s differ between two runs (%s, %s) although no definition it looks up or instantiates "
+                                       "changed: only in the first %s, only in the second %s"
+                                       % (" ".join(o), kind, fam, [x for x in a if x not in b][:2], [x for x in b if x not in a][:2])}
+                        if is_corpus and projects[i].meta.get("known") and kf:
+                            known_hit = kf[0]["what"]
+                        else:
+                            failing.append(rec)
+                        break
+                # ---- (3) findings are a function of (own source, answers to the lookups, anonymously instantiated sources)
+                if not is_corpus:
+                    for o, (fname, text) in B.items():
+                        if o not in lk_b:
+                            continue         # not analysed (included only, or dropped by the desugarer)
+                        anon = tuple((n, B.get(("template", n), (None, None))[1]) for n in anon_callees(text))
+                        key = (k, fname, o, text, lk_b[o]["lookups"], anon)
+                        val = (got.get(o, []), lk_b[o]["passes"])
+                        if key not in memo:
+                            memo[key] = (val, i)
+                            memo_keys += 1
+                        elif memo[key][0] != val:
+                            j = memo[key][1]
+                            what = "findings" if memo[key][0][0] != val[0] else "pass reports (real runner, in process)"
+                            broken.append({"project": projects[j].describe(), "variant": projects[i].describe(), "kind": kind,
+                                           "what": "%s of %s differ between two projects in which its source text and the answers to all "
+                                                   "its lookups (%s) are the same: Model.RunnerSrc assumes they are a function of these"
+                                                   % (what, " ".join(o), [l[1] for l in lk_b[o]["lookups"]])})
         if known_hit:
             ctx.known_finding("C17-duplicate-definition-order", known_hit)
         for f in failing[:5]:
-            ctx.violation("findings are not a function of the sources: " + f["what"][:400],
+            ctx.violation("findings are not a function of the sources: " + f["what"][:600],
                           {"input": f["project"], "project": f["project"], "variant": f.get("variant"), "kind": f["kind"], "impl": f["what"],
-                           "spec": "same normalised finding multiset (id, severity, message, labelled source text) per definition"})
-        if not failing and proofs["failures"]:
+                           "spec": "same normalised finding multiset (id, severity, message, labelled source text) per definition, "
+                                   "unless a definition it looks up / instantiates anonymously changed"})
+        if not failing:
+            for f in broken[:3]:
+                ctx.violation("correspondence Model.RunnerSrc vs the real passes broken: " + f["what"][:600],
+                              {"input": f["project"], "project": f["project"], "variant": f.get("variant"), "kind": f["kind"],
+                               "impl": f["what"], "broken": "s_pass : list answer -> list report (coq/model/RunnerSrc.v)",
+                               "spec": "pass results depend on other definitions only through the answers to the lookups"})
+        if not failing and not broken and proofs["failures"]:
             ctx.violation("proof obligations of C17 no longer check: " + "; ".join(proofs["failures"])[:500],
                           {"broken": "props/C17.v", "failures": proofs["failures"]}, no_input=True)
-        if not failing and not proofs["failures"] and nontrivial < len(structures) // 2:
-            ctx.violation("generator degenerate: only %d of %d projects display any finding" % (nontrivial, len(structures)),
-                          {"broken": "project generator of lib/e2e.py"}, no_input=True)
+        if not failing and not broken and not proofs["failures"]:
+            degenerate = []
+            if nontrivial < len(structures) // 2:
+                degenerate.append("only %d of %d projects display any finding" % (nontrivial, len(structures)))
+            if shapes_seen < len(structures) // 8:
+                degenerate.append("only %d of %d projects contain a template dropped by the desugarer that another one instantiates "
+                                  "anonymously" % (shapes_seen, len(structures)))
+            if moved_total < 5:
+                degenerate.append("only %d definitions changed their findings through a changed referenced definition" % moved_total)
+            if perm_projects < 5:
+                degenerate.append("only %d small projects were driven through all analysis orders" % perm_projects)
+            if degenerate:
+                ctx.violation("generator degenerate: " + "; ".join(degenerate), {"broken": "project generator of lib/props/C17.py"}, no_input=True)
         kinds = {}
         for _, kind in info:
             kinds[kind] = kinds.get(kind, 0) + 1
+        nproc_min = min(len(v) for k, v in groups.items() if not isinstance(k, str))
+        n_quick = nproc_min + reps
         ctx.coverage.update({
-            "evaluations": len(runs),
-            "distinct_nontrivial": len(orders),
-            "rule": "one evaluation = one run of the real binary in a fresh process (--level info --verbose --sarif-file); every project is run "
-                    ">= 8 times: 3-4 times unchanged, 2 times with the definitions of every file permuted, 2 times with the files in another "
-                    "order (when it has several user files), once with unreferenced definitions added and once with unreferenced definitions "
-                    "removed; distinct-nontrivial = distinct (project, observed analysis order) pairs",
+            "evaluations": len(runs) + inproc_runs + perm_orders,
+            "distinct_nontrivial": len(seen_orders),
+            "rule": "one evaluation = one run of the pipeline on one project with fresh hasher state: the real binary in a fresh process "
+                    "(--level info --verbose --sarif-file), or the pipeline of main.rs in a fresh thread of harness `c17 orders`, or one "
+                    "analysis order driven through the real runner by harness `c17 deps`; every project is run >= %d times in fresh "
+                    "processes (unchanged, definitions permuted, files permuted, unreferenced definitions added / removed, a referenced "
+                    "definition changed) and every distinct project text %d times in process; distinct-nontrivial = distinct "
+                    "(project text, observed analysis order) pairs" % (nproc_min, reps),
             "exhaustive": False,
             "projects": len(structures), "projects_displaying_findings": nontrivial, "comparisons": compared,
             "runs_per_variant_kind": kinds, "corpus_witnesses": [c["_file"] for c in corpus],
-            "spec_failures": len(failing),
+            "fresh_process_runs": len(runs), "in_process_pipeline_runs": inproc_runs,
+            "in_process_projects_with_more_than_one_outcome": inproc_multi,
+            "projects_with_dropped_template_instantiated_anonymously": shapes_seen,
+            "drop_reasons": sorted({r for st in structures for r in st.get("shapes", [])}),
+            "definitions_allowed_to_change": allowed_total,
+            "definitions_changed_through_a_changed_reference": moved_total,
+            "function_of_source_and_answers_keys": memo_keys,
+            "all_analysis_orders_small_projects": perm_projects, "analysis_orders_driven_through_real_runner": perm_orders,
+            "iteration_order_of_two_template_maps": order_hist,
+            "hash_state_samples_per_case": {"fresh_processes": nproc_min, "in_process_fresh_threads": reps},
+            "probability_of_missing_a_two_outcome_order_dependence": {
+                "assumption": "the hasher keys of different processes / threads are independent (std RandomState: OS randomness per "
+                              "thread); q = probability of the rarer outcome under one hash state; per affected project",
+                "q=1/2 (relative order of two map entries)": miss_probability(n_quick, 0.5),
+                "q=1/6 (one of the orders of three entries)": miss_probability(n_quick, 1 / 6.0),
+                "q=1/24": miss_probability(n_quick, 1 / 24.0),
+                "n": n_quick,
+                "fresh processes only, q=1/2": miss_probability(nproc_min, 0.5),
+                "note": "a dependence that shows in m generated projects is missed with the m-th power of this; "
+                        "log2 of the q=1/2 bound: %.1f" % math.log2(miss_probability(n_quick, 0.5)),
+            },
+            "spec_failures": len(failing), "model_assumption_failures": len(broken),
             "samples": [{"tag": projects[i].tag, "argv": projects[i].argv, "exit": runs[i]["exit"],
                          "displayed": len([e for e in runs[i]["events"] if e[0] == "diag"])} for i in (0, len(runs) // 2, cstart - 1)],
         })
         ctx.assumptions += [
-            "hash seeds are sampled (fresh process per run), not enumerated; all iteration orders of the name maps are covered by the "
-            "theorems over Model.Runner only (C17_runner_order_independent), and the model is tied to the binary by the e2e correspondence of C03",
-            "orders inside the stages (dominator-tree children, taint maps, declaration maps, SSA version numbers) are outside Model.Runner: "
-            "their irrelevance for the findings is observed by the repeated runs only",
+            "hash seeds are sampled (fresh process / fresh thread per run), not enumerated; all iteration orders of the name maps and of the "
+            "desugaring loops are covered by the theorems over Model.Runner / Model.RunnerSrc / Model.Desugar only",
+            "orders inside the other stages (dominator-tree children, taint maps, declaration maps, SSA version numbers) are outside the "
+            "models: their irrelevance for the findings is observed by the repeated runs only (bound above)",
+            "Model.RunnerSrc: that the pass results of a definition are a function of its own source and of the answers to its lookups is "
+            "checked on the explored cases (findings grouped by source text and answers coincide), not proved about the Rust passes",
             "normalisation: the project directory in messages, generated names <name>_<line>_<offset>, and positions (labelled source text "
             "is compared instead of line numbers)",
         ]
@@ -275,9 +695,18 @@ def replay(ctx, rep):
         print("8 runs of the same input gave %d distinct finding multisets" % len(distinct))
         for f in distinct[:3]:
             print("  ", {" ".join(k): [x[:3] for x in v] for k, v in f.items()})
+        o = harness_lines("orders", [ps[0]], [{"reps": 32}])[0]
+        print("32 repetitions in process (fresh hasher keys each): %d distinct outcomes %s; analysis orders seen: %d"
+              % (len(o.get("outcomes", [])), [x["count"] for x in o.get("outcomes", [])], len(set(o.get("analysis_orders", [])))))
+        d = harness_lines("deps", [ps[0]], [{}])[0]
+        for x in (d.get("runs") or [{}])[0].get("defs", []):
+            print("   %s %s looked up: %s" % (x["kind"], x["name"], [(l["name"], l["answer"]) for l in x["lookups"]]))
         if rep.get("variant"):
             print("variant (%s):" % rep.get("kind"))
             print("  ", {" ".join(k): [x[:3] for x in v] for k, v in res[8][1].items()})
-        return 1 if len(distinct) > 1 else 0
+            d = harness_lines("deps", [ps[8]], [{}])[0]
+            for x in (d.get("runs") or [{}])[0].get("defs", []):
+                print("   %s %s looked up: %s" % (x["kind"], x["name"], [(l["name"], l["answer"]) for l in x["lookups"]]))
+        return 1 if len(distinct) > 1 or len(o.get("outcomes", [])) > 1 else 0
     finally:
         shutil.rmtree(base, ignore_errors=True)
